@@ -37,6 +37,10 @@ pub enum Op {
     /// `watcher` is linked to and monitors `victim`, is kept busy in its handler with a completely full mailbox, and
     /// `victim` fails meanwhile: the notices have to wait for room, they must not get lost
     KillWhileFull { victim: u8, watcher: u8 },
+    /// `victim` holds `name` and fails; while it is still on its way out (after `turns` rounds of the scheduler) the name is
+    /// taken from it and given to `other` (a supervisor restarting a worker under the same name): a registration that
+    /// succeeded must survive the victim's own clean-up
+    KillRebind { victim: u8, other: u8, name: u8, turns: u8 },
 }
 
 #[derive(Clone, Debug, Serialize, Deserialize, PartialEq)]
@@ -144,6 +148,7 @@ fn run_net(c: &Case) -> Result<Result<NetOut, String>, BedErr> {
         let mut ref_no = 0u32;
 
         // one sequential operation against node and model
+        let hold = crate::netbed::install_hold();
         macro_rules! seq_op {
             ($op:expr, $phase:expr) => {{
                 let op: &Op = $op;
@@ -279,6 +284,86 @@ fn run_net(c: &Case) -> Result<Result<NetOut, String>, BedErr> {
                             let pc = node.process_count().await;
                             if pc != base_count - (NPROC - alive_n) {
                                 problems.push(("process-count-wrong".into(), format!("{}: process_count() = {}, expected {}", $phase, pc, base_count - (NPROC - alive_n))));
+                            }
+                        }
+                    }
+                    Op::KillRebind { victim, other, name, turns } => {
+                        let (p, q, n) = (*victim as usize % NPROC, *other as usize % NPROC, *name as usize % SEQ_NAMES);
+                        if p != q && m.alive[p] && m.alive[q] && (m.names.get(&n) == Some(&p) || !m.names.contains_key(&n)) {
+                            if !m.names.contains_key(&n) {
+                                if node.register(Atom::new(NAMES[n]), procs[p].0.clone()).await.is_err() {
+                                    problems.push(("free-name-cannot-be-registered".into(), format!("{}: {}", $phase, NAMES[n])));
+                                    continue;
+                                }
+                                m.names.insert(n, p);
+                            }
+                            killed_with_ties = true;
+                            let _ = node.send(&procs[p].0, OwnedTerm::atom("poison")).await;
+                            m.expected[p].push(Event::Regular(Value::atom("poison")));
+                            m.alive[p] = false;
+                            // odd `turns`: the victim is kept at the point where it has left the process table but not yet released
+                            // its names (holding point) until the name has changed hands; even: wherever it happens to be
+                            let held = *turns % 2 == 1;
+                            hold.set(held);
+                            if held {
+                                let (reg, vp) = (node.registry(), procs[p].0.clone());
+                                let t0 = std::time::Instant::now();
+                                while reg.get(&vp).await.is_some() && t0.elapsed() < Duration::from_secs(5) {
+                                    tokio::task::yield_now().await;
+                                }
+                            } else {
+                                for _ in 0..(*turns % 12) {
+                                    tokio::task::yield_now().await;
+                                }
+                            }
+                            // the name changes hands while the victim is on its way out
+                            let _ = node.unregister(&Atom::new(NAMES[n])).await;
+                            let taken = node.register(Atom::new(NAMES[n]), procs[q].0.clone()).await.is_ok();
+                            hold.set(false);
+                            if held {
+                                // let the victim finish its clean-up
+                                drain().await;
+                            }
+                            let me = pid_value(&procs[p].0);
+                            for (a, b) in m.links.clone() {
+                                let other = if a == p { b } else if b == p { a } else { continue };
+                                if m.alive[other] {
+                                    m.expected[other].push(Event::Exit { from: me.clone(), reason: Value::atom("error") });
+                                }
+                                m.links.remove(&(a, b));
+                            }
+                            for mon in m.monitors.iter_mut() {
+                                if mon.1 == p && mon.3 {
+                                    if m.alive[mon.0] {
+                                        m.expected[mon.0].push(Event::MonitorExit { monitored: me.clone(), reference: mon.2.clone(), reason: Value::atom("error") });
+                                    }
+                                    mon.3 = false;
+                                }
+                            }
+                            m.names.retain(|_, holder| *holder != p);
+                            if taken {
+                                m.names.insert(n, q);
+                            }
+                            let reg = node.registry();
+                            let t0 = std::time::Instant::now();
+                            let mut rounds = 0usize;
+                            while reg.get(&procs[p].0).await.is_some() {
+                                drain().await;
+                                rounds += 1;
+                                if t0.elapsed() > Duration::from_secs(5) && rounds >= crate::nodebed::MIN_WAIT_ROUNDS {
+                                    problems.push(("process-does-not-terminate".into(), format!("{}: process {}", $phase, p)));
+                                    break;
+                                }
+                                std::thread::sleep(Duration::from_micros(100));
+                            }
+                            drain().await;
+                            let w = node.whereis(&Atom::new(NAMES[n])).await;
+                            let want = m.names.get(&n).map(|x| procs[*x].0.clone());
+                            if w != want {
+                                problems.push((
+                                    "whereis-wrong".into(),
+                                    format!("{}: process {} failed while {} was re-registered for process {} (register succeeded: {}); afterwards whereis = {:?}, expected process {:?}", $phase, p, NAMES[n], q, taken, w.map(|x| x.id), m.names.get(&n)),
+                                ));
                             }
                         }
                     }
@@ -613,6 +698,7 @@ fn op_strategy() -> impl Strategy<Value = Op> {
         1 => (any::<u8>(), prop_oneof![Just(0i32), Just(1), Just(-1), Just(i32::MAX), Just(i32::MIN), any::<i32>()]).prop_map(|(caller, request)| Op::GenCall { caller, request }),
         1 => (any::<u8>(), -1000i32..1000).prop_map(|(caller, request)| Op::GenEventCall { caller, request }),
         1 => (any::<u8>(), any::<u8>()).prop_map(|(victim, watcher)| Op::KillWhileFull { victim, watcher }),
+        1 => (any::<u8>(), any::<u8>(), any::<u8>(), any::<u8>()).prop_map(|(victim, other, name, turns)| Op::KillRebind { victim, other, name, turns }),
     ]
 }
 
